@@ -89,6 +89,15 @@ def _load_source(spec, iterators):
     return load((desc, iterators), strip=False)
 
 
+def _package_source(spec):
+    """the sources as a data package on disk (written once per directory from the plain iterables), read back with load(path)"""
+    from dataflows import Flow, load, dump_to_path
+    d = os.path.abspath('srcpkg')
+    if not os.path.exists(os.path.join(d, 'datapackage.json')):
+        Flow(*[T.rows_of(t) for t in spec['tables']], dump_to_path(d)).process()
+    return load(os.path.join(d, 'datapackage.json'))
+
+
 def _history(payload, sub):
     """Runs in a sub-run child: a list of ops against one Flow object (same-object) or a single RUN (fresh)."""
     import time as _time
@@ -110,11 +119,22 @@ def _history(payload, sub):
                 counters['src'][self.ti] += 1
                 yield dict(row)
 
+    armed = {'at': None, 'seen': 0}
+
+    class Boom(Exception):
+        pass
+
     def counting(name):
         counters['steps'][name] = 0
 
         def step(rows):
             for row in rows:
+                if armed['at'] is not None:
+                    if armed['seen'] == armed['at']:
+                        armed['at'] = None
+                        sub.fault('step-raise')
+                        raise Boom('history op failrun: step %s fails' % name)
+                    armed['seen'] += 1
                 counters['steps'][name] += 1
                 if name.startswith('m'):
                     # a non-idempotent in-place edit: running it twice, or letting it leak into a checkpoint
@@ -144,6 +164,8 @@ def _history(payload, sub):
     def make():
         if spec.get('src') == 'load':
             links = [_load_source(spec, [Restartable(ti, T.rows_of(t)) for ti, t in enumerate(spec['tables'])])]
+        elif spec.get('src') == 'package':
+            links = [_package_source(spec)]
         else:
             links = [Src(ti, T.rows_of(t)) for ti, t in enumerate(spec['tables'])]
         for sp in spec.get('gsteps') or []:
@@ -177,6 +199,18 @@ def _history(payload, sub):
                 break
             import gc
             gc.collect()
+        elif op['op'] == 'failrun':
+            # a run of the same flow that dies part-way (a counting step raises at its k-th row); what it leaves behind is
+            # C08's business, what the *next* runs return is judged here
+            armed['at'], armed['seen'] = op['at'], 0
+            try:
+                flow.results()
+                outs.append({'failed': False})
+            except Exception:  # noqa
+                outs.append({'failed': True})
+            armed['at'] = None
+            import gc
+            gc.collect()
         elif op['op'] == 'delete':
             shutil.rmtree(os.path.join('.checkpoints', op['name']), ignore_errors=True)
             outs.append(None)
@@ -201,6 +235,8 @@ def _reference(payload, sub):
     spec = payload['spec']
     if spec.get('src') == 'load':
         links = [_load_source(spec, [iter(T.rows_of(t)) for t in spec['tables']])]
+    elif spec.get('src') == 'package':
+        links = [_package_source(spec)]
     else:
         links = [T.rows_of(t) for t in spec['tables']]
     for sp in spec.get('gsteps') or []:
@@ -244,7 +280,7 @@ class C07(Prop):
                    'same-object configuration uses re-iterable sources and stateless steps, so only the checkpoint machinery carries state between runs']
     REAL_VS_STUB = {'real': ['dataflows Flow / checkpoint / stream / unstream / extended_json', 'the file system'], 'stub': ['process environment: TZ set per run; fork per RUN in the fresh configuration']}
     PROBES = ['negative-utc-offset', 'sub-hour-offset', 'duration-value', 'time-value', 'nested-object', 'high-precision-decimal', 'tz-changed-between-runs', 'same-object-config',
-              'fresh-config', 'delete-middle-checkpoint', 'resume-after-delete-all', 'three-checkpoints', 'empty-resource', 'mutating-step-after-checkpoint', 'year-below-1000', 'zero-column-rows', 'sources-through-load', 'same-object-rerun-of-load', 'validate-step-in-the-chain', 'nested-checkpoint-names', 'same-zone-name-different-offsets', 'built-in-steps-upstream-of-the-checkpoints'] + ['g:' + k for k in G_KINDS]
+              'fresh-config', 'delete-middle-checkpoint', 'resume-after-delete-all', 'three-checkpoints', 'empty-resource', 'mutating-step-after-checkpoint', 'year-below-1000', 'zero-column-rows', 'sources-through-load', 'same-object-rerun-of-load', 'validate-step-in-the-chain', 'nested-checkpoint-names', 'same-zone-name-different-offsets', 'built-in-steps-upstream-of-the-checkpoints', 'failed-run-of-the-same-flow-in-the-history', 'sources-from-a-data-package-on-disk'] + ['g:' + k for k in G_KINDS]
     TIERS = {'quick': dict(runs=500, wall=100, run_wall=300),
              'thorough': dict(runs=12000, wall=1700, run_wall=600)}
     SHRINK_FROZEN = ('fields',)
@@ -294,8 +330,15 @@ class C07(Prop):
             if op['op'] == 'run' and config == 'fresh':
                 op['tz'] = rng.choice(TZS)
         spec = {'tables': tabs, 'links': links}
-        if rng.random() < 0.3:
+        r_src = rng.random()
+        if r_src < 0.25:
             spec['src'] = 'load'          # the sources arrive through one load((descriptor, iterators)) step instead of plain iterables
+        elif r_src < 0.4 and all(t['fields'] for t in tabs):
+            spec['src'] = 'package'       # ... or from a data package on disk, read with load(path)
+        if config == 'same-object' and spec.get('src') != 'load' and rng.random() < 0.35 and any(not ln.startswith('cp:') and not ln.startswith('v') for ln in links):
+            # history op: a run of the same Flow object that fails part-way, somewhere before the last run (not with
+            # (descriptor, iterators) sources: the iterators handed to load are one-shot, half-consumed after a failure)
+            ops.insert(rng.randrange(1, len(ops)), {'op': 'failrun', 'at': rng.choice([0, 1, 2, 5])})
         sc = {'spec': spec, 'ops': ops, 'config': config}
         if rng.random() < 0.4 and all(t['fields'] for t in tabs) and spec.get('src') != 'load':
             # 1-3 built-in steps upstream of everything (drawn against the real descriptor in execute): do they keep state between runs?
@@ -346,6 +389,8 @@ class C07(Prop):
             ctx.probe('same-zone-name-different-offsets')
         if any(ln.startswith('v') for ln in spec['links']):
             ctx.probe('validate-step-in-the-chain')
+        if spec.get('src') == 'package':
+            ctx.probe('sources-from-a-data-package-on-disk')
         if spec.get('src') == 'load':
             ctx.probe('sources-through-load')
             if sc.get('config') == 'same-object':
@@ -377,6 +422,8 @@ class C07(Prop):
             if op['op'] != 'run':
                 if op['op'] == 'delete' and len(names) > 2 and op['name'] == names[1]:
                     ctx.probe('delete-middle-checkpoint')
+                if op['op'] == 'failrun' and out and out.get('failed'):
+                    ctx.probe('failed-run-of-the-same-flow-in-the-history')
                 continue
             label = 'op#%d RUN (%s, history %s)' % (oi, sc.get('config'), ' '.join(o['op'] + (':' + o['name'] if 'name' in o else '') for o in ops[:oi + 1]))
             before = out['before']
@@ -399,7 +446,7 @@ class C07(Prop):
                 if links[i].startswith('cp:') and before[links[i][3:]]:
                     cut = i
                     break
-            exp_src = [0] * len(total) if cut >= 0 else list(total)
+            exp_src = [0] * len(total) if cut >= 0 or spec.get('src') == 'package' else list(total)      # (file sources are not counted)
             exp_steps = {ln: (ref['steps'][ln] if i > cut else 0) for i, ln in enumerate(links) if not ln.startswith('cp:') and not ln.startswith('v')}
             if out['src'] != exp_src or out['steps'] != exp_steps:
                 under = sum(out['src']) < sum(exp_src) or any(out['steps'][k] < exp_steps[k] for k in exp_steps)
